@@ -18,12 +18,12 @@ func checkC09(r *Run) {
 	r.Rule("R4", "helper scopes: partial replaces its context by a child before any Set and renders with it; contentOf and the contentFor closure create the child per call, set the data on it and hand it to BlockWith; the only Set on the caller's context is the contentFor registration", 1)
 	r.Rule("R5", "user-function parameters are bound in the installed child scope", 1)
 	r.Rule("R6", "outer variables stay readable inside: a child scope injects a default helper only when the name is absent from the whole outer chain (Has walks the chain)", 1)
-	helperInjectionRule(r, "R6")
-	scopePairingRule(r, "R1")
+	helperInjectionRuleSSA(r, "R6")
+	scopeDisciplineRuleSSA(r, "R1")
 	freshChildRule(r, "R2")
 	setLocalRule(r, "R3")
 	helperScopeRule(r, "R4")
-	paramsInChildRule(r, "R5")
+	paramsInChildRuleSSA(r, "R5")
 }
 
 // ctxStores collects, per top-level function, the stores to the evaluator's
